@@ -9,6 +9,9 @@ REG = {}
 REG['C01'] = {
     'level': 'proof',
     'design_ref': '5/C01',
+    'technique': 'Kani function contracts + full-domain symbolic harnesses on the real jd.rs/solar.rs functions (f64 bit-precise), Verus lemmas over the spec calendar',
+    'level_text': 'Every clause is a K or V obligation over the whole input domain: date->day-number against a first-principles calendar spec (all y,m,d), acceptance == existence, the inverse conversion for every day number (quick: stated subset of 100 year-slices, thorough: complete partition + the contract form), subtract/next/order/lengths; Verus lemmas give +1 per civil day incl. the 1582 cut-over, bijection onto 3,652,061 day numbers, order <=> day-number order. No leaf contracts.',
+    'level_note': 'trusted: Kani/CBMC (incl. IEEE-754 model), Verus/Z3, rustc; alloc::fmt::format stubbed (message text only); stub_verified callers see only the separately proved conversion contracts; quick tier proves the inverse conversion on a boundary + seed-rotated subset of slices and says which (full partition in thorough)',
     'functions': [
         'JulianDay::from_ymd_hms', 'JulianDay::get_solar_time', 'JulianDay::get_solar_day', 'JulianDay::next',
         'SolarDay::new', 'SolarDay::from_ymd', 'SolarDay::get_julian_day', 'SolarDay::subtract', 'SolarDay::next',
@@ -18,17 +21,19 @@ REG['C01'] = {
     'K': [
         dict(id='c01_k1_ymd2jd', sliced=True, quick='all', fn='JulianDay::from_ymd_hms',
              clause='contract: from_ymd_hms(y,m,d,0,0,0).day == jdn(y,m,d) - 0.5 for all 0<=y<=10000, 1<=m<=12, 1<=d<=31'),
-        dict(id='c01_k3_jd2ymd', sliced=True, quick=dict(boundary=[0, 'v:2299160', 'v:2299161', -1], sample=8), fn='JulianDay::get_solar_time',
+        dict(id='c01_k3q_jd2ymd', sliced=True, quick=dict(boundary=[0, 'v:1582', 'v:1900', -1], sample=12), fn='JulianDay::get_solar_time',
+             clause='for every valid date d: get_solar_time(jdn(d) - 0.5) == d at 00:00:00 (with V2 surjectivity: the inverse conversion for every day number in range)'),
+        dict(id='c01_k3_jd2ymd', sliced=True, thorough_only=True, fn='JulianDay::get_solar_time',
              clause='contract: for every integer day number n of 0001-01-01..9999-12-31, get_solar_time(n-0.5) is a valid date at 00:00:00 with jdn == n'),
         dict(id='c01_k2_day_accept', fn='SolarDay::new', clause='SolarDay::new(y,m,d).is_ok() == valid_date(y,m,d) for all y in 1..9999, m in 1..12, every usize d'),
         dict(id='c01_k2_month_year_refuse', fn='SolarMonth::new / SolarYear::new', clause='months outside 1..12 and years outside 1..9999 are refused (Err)'),
         dict(id='c01_k2_bad_month_year_panics', expect='panic_all', fn='SolarDay::new', clause='SolarDay::new refuses (panics) for every (y,m) outside 1..9999 x 1..12'),
         dict(id='c01_k4_subtract', fn='SolarDay::subtract', clause='a.subtract(b) == jdn(a) - jdn(b) for all pairs of valid dates (stub_verified from_ymd_hms)'),
-        dict(id='c01_k5_next', fn='SolarDay::next', clause='jdn(a.next(n)) == jdn(a) + n and the result is valid, for all a, n with the result in range (both conversion contracts)'),
-        dict(id='c01_k3_roundtrip_by_contract', fn='SolarDay::get_julian_day / JulianDay::get_solar_day', clause='date -> day count -> date keeps the day number and validity'),
+        dict(id='c01_k5_next', thorough_only=True, fn='SolarDay::next', clause='jdn(a.next(n)) == jdn(a) + n and the result is valid, for all a, n with the result in range (both conversion contracts)'),
+        dict(id='c01_k3_roundtrip_by_contract', thorough_only=True, fn='SolarDay::get_julian_day / JulianDay::get_solar_day', clause='date -> day count -> date keeps the day number and validity'),
         dict(id='c01_k6_order', fn='SolarDay::is_before / is_after / eq', clause='strict lexicographic order on (y,m,d)'),
         dict(id='c01_k7_lengths', fn='SolarMonth::get_day_count, SolarYear::get_day_count / is_leap', clause='== month_len / year_len / is_leap_civil of the calendar spec'),
-        dict(id='c01_k7_day_of_year', fn='SolarDay::get_index_in_year', clause='== jdn(date) - jdn(y,1,1)'),
+        dict(id='c01_k7_day_of_year', thorough_only=True, fn='SolarDay::get_index_in_year', clause='== jdn(date) - jdn(y,1,1)'),
     ],
     'V': [
         dict(id='c01_v_calendar', template='verus/c01_calendar.rs',
